@@ -172,8 +172,13 @@ def run_one(tape: Any, cfg: Dict[str, Any], forbid: FrozenSet[str] = frozenset()
                 # whatever turns the request into text when the connection ends)
                 odd = b'/caf\xe9' if tape.coin(0.25, 'odd-bytes') else b''
                 req = b'GET http://' + host + b'/x' + odd + b' HTTP/1.1\r\nHost: ' + host + b'\r\n\r\n'
+                req2 = req
+                if tape.coin(0.25, 'other-origin'):
+                    # the follow-up names another origin (which origin answers it is C04's known finding; here only that
+                    # whatever sockets the proxy opens for it are closed again)
+                    req2 = b'GET http://10.0.0.3/y HTTP/1.1\r\nHost: 10.0.0.3\r\n\r\n'
                 full: List[Any] = [('send', req, 'burst'), ('wait_rx', lambda p: count_responses(bytes(p.rx)) >= 1),
-                                   ('send', req, 'burst'), ('wait_rx', lambda p: count_responses(bytes(p.rx)) >= 2)]
+                                   ('send', req2, 'burst'), ('wait_rx', lambda p: count_responses(bytes(p.rx)) >= 2)]
             elif role == 'tunnel':
                 req = b'CONNECT ' + host + b':443 HTTP/1.1\r\nHost: ' + host + b':443\r\n\r\n'
                 full = [('send', req, 'burst'), ('wait_rx', lambda p: b'\r\n\r\n' in p.rx), ('send', b'ping', 'burst'),
